@@ -265,6 +265,8 @@ func c09Corpus(kind int) [][]byte {
 		add(c15H264Frame("a", 2)...)
 		add(c15H264Frame("4", 3)...)
 		add(c15H264Frame("2", 4)...)
+		add(ref.H264Fragment(ref.H264Unit(5, 3, 70000, 9), []int{30000, 60000})...) // a unit of more than 65535 bytes
+		add(ref.H264StapAPayload([][]byte{ref.H264Unit(7, 3, 300, 1), ref.H264Unit(8, 3, 256, 2)}))
 		add(ref.H264StapAPayload([][]byte{ref.H264Unit(7, 3, 2, 1)}))
 		add([]byte{0x18}, []byte{0x18, 0x00, 0x05, 0x01, 0x02}, []byte{0x18, 0x00, 0x00}, []byte{0x18, 0x00, 0x01, 0x67, 0x00}, []byte{0x78, 0xFF, 0xFF})
 		add([]byte{0x7C}, []byte{0x7C, 0xC5}, []byte{0x7C, 0xC5, 0x01}, []byte{0x7C, 0x45}, []byte{0x1C, 0x00, 0x09})
@@ -282,6 +284,9 @@ func c09Corpus(kind int) [][]byte {
 			add(ref.H265AP([][]byte{ref.H265Unit(1, 0, 1, 2, 1), ref.H265Unit(1, 0, 1, 2, 2)}, dv, []uint8{1}))
 			add(ref.H265FU(u, []int{2, 5}, dv)...)
 		}
+		// an aggregation packet whose units after the first total more than 65535 bytes
+		add(ref.H265AP([][]byte{ref.H265Unit(1, 0, 1, 10, 1), ref.H265Unit(1, 0, 1, 30000, 2), ref.H265Unit(1, 0, 1, 30000, 3), ref.H265Unit(1, 0, 1, 6000, 4)}, nil, nil))
+		add(ref.H265AP([][]byte{ref.H265Unit(1, 0, 1, 300, 1), ref.H265Unit(1, 0, 1, 256, 2)}, nil, nil))
 		add(ref.H265PACI(1, 2, 3<<4|8, []byte{0x11, 0x22, 0xC3}, []byte{0x99, 0x98}))
 		add(ref.H265PACI(0, 1, 0, nil, []byte{0x77}))
 		add(ref.H265PACI(0, 1, 31<<4|0xF, fill(31, 3), []byte{0x77}))
@@ -334,6 +339,9 @@ func c09Corpus(kind int) [][]byte {
 		// a packet with Z=1 and Y=1 whose last element starts another fragmented OBU
 		add(cloneAll(pl.Payload(8, ref.AV1Stream([]ref.OBU{o(6, 9), o(6, 10)}, false)))...)
 		add(cloneAll(pl.Payload(7, ref.AV1Stream([]ref.OBU{o(6, 7), o(3, 1), o(4, 9)}, false)))...)
+		// large OBUs: 3-byte LEB128 sizes, one packet and a train of fragments
+		add(cloneAll(pl.Payload(65535, ref.AV1Stream([]ref.OBU{o(6, 16384)}, false)))...)
+		add(cloneAll(pl.Payload(9000, ref.AV1Stream([]ref.OBU{o(6, 20000)}, false)))...)
 		add([]byte{0x00}, []byte{0x10}, []byte{0x10, 0x30}, []byte{0x88, 0x30, 0x01}, []byte{0x80, 0x30}, []byte{0x40, 0x02, 0x30, 0x01}, []byte{0xC0, 0x01, 0x30})
 		add([]byte{0x00, 0x05, 0x30, 0x01}, []byte{0x20, 0x01, 0x30}, []byte{0x30, 0x01, 0x30, 0x01, 0x30, 0x30}, []byte{0x00, 0x80}, []byte{0x00, 0x80, 0x80, 0x80, 0x80, 0x80, 0x80, 0x80, 0x80, 0x80, 0x01})
 		add([]byte{0x10, 0x80}, []byte{0x10, 0x32, 0x05, 0x01}, []byte{0x10, 0x32, 0x01, 0xAA}, []byte{0x10, 0x34}, []byte{0x00, 0x00, 0x00}, []byte{0x10, 0x12, 0x00}, []byte{0x18, 0x0A, 0x01, 0x02})
